@@ -617,7 +617,7 @@ def check_C15(run):
 
 
 def check_C16(run):
-    n = 25 if run.tier == "quick" else 500
+    n = 70 if run.tier == "quick" else 700
     r = hist_suite(run, "mergecrash", ["hist", "-n", n, "-x", "mergecrash"],
                    "a workload over key/value data, sets and sorted sets (12 transactions, small segments) followed by Merge with "
                    "every file mutation recorded; for every mutation point inside Merge (create, truncate, every record write "
